@@ -163,30 +163,219 @@ def call_args(form, vals):
     raise ValueError("unknown call form " + str(form))
 
 
+# ---- round-4 devices: the same call, made in a way the documentation admits, must give the same lattice
+#   container     how `particle_data` ("a list of Particle objects") is handed over: list, list subclass; tuple, numpy object
+#                 array and the one-shot iterables (generator, iter(list), map, filter) where the code under test accepts them
+#                 at all (probed once per run: a probe call that raises makes the kind inadmissible, it is then only counted)
+#   copy_lattice  the lattice object is replaced by its copy.copy / copy.deepcopy / pickle round trip before the call
+#   copy_parts    every particle likewise
+#   argtypes      sigma as numpy double, quantity / kernel as numpy str or a str subclass, add as numpy bool (probed)
+#   env           the call is made after os.chdir into a fresh empty directory, with non-default numpy print options,
+#                 np.seterr(all="warn") and advanced `random` / `np.random` global states; afterwards cwd, print options,
+#                 np.geterr(), both global random states must be as the call found them and the directory still empty
+COPY_KINDS = ["copy", "deepcopy", "pickle"]
+CONTAINERS_FREE = ["list", "list-subclass"]
+CONTAINERS_PROBED = ["tuple", "object-array", "generator", "iter", "map", "filter"]
+ONE_SHOT = {"generator", "iter", "map", "filter"}
+ARGTYPES_PROBED = ["sigma-np.float64", "names-np.str_", "names-str-subclass", "add-np.bool_"]
+DEV_DEFAULT = dict(container="list", copy_lattice=None, copy_parts=None, argtypes=None, env=False)
+_ADMISSIBLE = {}
+
+
+class _PList(list):
+    pass
+
+
+class _PStr(str):
+    pass
+
+
+def copied(obj, kind):
+    import copy
+    import pickle
+    if kind == "copy":
+        return copy.copy(obj)
+    if kind == "deepcopy":
+        return copy.deepcopy(obj)
+    if kind == "pickle":
+        return pickle.loads(pickle.dumps(obj))
+    return obj
+
+
+def wrap_container(parts, kind):
+    if kind in (None, "list"):
+        return list(parts)
+    if kind == "list-subclass":
+        return _PList(parts)
+    if kind == "tuple":
+        return tuple(parts)
+    if kind == "object-array":
+        a = np.empty(len(parts), dtype=object)
+        for i, p_ in enumerate(parts):
+            a[i] = p_
+        return a
+    if kind == "generator":
+        return (p_ for p_ in parts)
+    if kind == "iter":
+        return iter(list(parts))
+    if kind == "map":
+        return map(lambda p_: p_, parts)
+    if kind == "filter":
+        return filter(lambda p_: True, parts)
+    raise ValueError("unknown container " + str(kind))
+
+
+def typed_args(vals, kind):
+    v = dict(vals)
+    if kind == "sigma-np.float64":
+        v["sigma"] = np.float64(v["sigma"])
+    elif kind == "names-np.str_":
+        v["quantity"], v["kernel"] = np.str_(v["quantity"]), np.str_(v["kernel"])
+    elif kind == "names-str-subclass":
+        v["quantity"], v["kernel"] = _PStr(v["quantity"]), _PStr(v["kernel"])
+    elif kind == "add-np.bool_":
+        v["add"] = np.bool_(v["add"])
+    return v
+
+
+class _Env:
+    """the environment device (see above); `changed` lists what the call did not leave as it found it"""
+
+    def __enter__(self):
+        import os
+        import random
+        import tempfile
+        self.cwd0 = os.getcwd()
+        self.print0 = np.get_printoptions()
+        self.err0 = np.geterr()
+        self.rand0 = random.getstate()
+        self.nprand0 = np.random.get_state()
+        self.tmp = tempfile.mkdtemp(prefix="c16env_")
+        os.chdir(self.tmp)
+        np.set_printoptions(precision=3, threshold=5, suppress=True, linewidth=40)
+        np.seterr(all="warn")
+        random.seed(20261001)
+        [random.random() for _ in range(17)]
+        np.random.seed(424242)
+        np.random.rand(7)
+        self.before = self.snapshot()
+        self.changed = []
+        return self
+
+    @staticmethod
+    def snapshot():
+        import os
+        import random
+        st = np.random.get_state()
+        return dict(cwd=os.getcwd(), printoptions=repr(sorted(np.get_printoptions().items(), key=lambda kv: kv[0])),
+                    geterr=repr(sorted(np.geterr().items())), random=hash(random.getstate()),
+                    nprandom=(st[0], st[1].tobytes(), st[2:]), files=tuple(sorted(os.listdir("."))))
+
+    def __exit__(self, *a):
+        import os
+        import random
+        import shutil
+        try:
+            after = self.snapshot()
+            self.changed = [k for k in self.before if after[k] != self.before[k]]
+        except Exception:
+            self.changed = ["cwd"]
+        os.chdir(self.cwd0)
+        np.set_printoptions(**self.print0)
+        np.seterr(**self.err0)
+        random.setstate(self.rand0)
+        np.random.set_state(self.nprand0)
+        shutil.rmtree(self.tmp, ignore_errors=True)
+        return False
+
+
+PROBE_CASE = dict(lattice=dict(axes=[[-1.0, 1.0, 5], [-1.0, 1.0, 5], [-1.0, 1.0, 5]]), sigma=0.2, kernel="gaussian",
+                  quantity="energy_density", add=False, form="kw",
+                  particles=[dict(x=0.1, y=0.0, z=-0.1, E=1.0, mass=1.0, px=0.0, py=0.0, pz=0.0, charge=1, baryon_number=1,
+                                  strangeness=0)])
+
+
+def admissible():
+    """which of the probed ways of calling the code under test accepts at all (one probe call each, once per process)"""
+    if not _ADMISSIBLE:
+        for kind in CONTAINERS_PROBED:
+            r = run_real(dict(PROBE_CASE, dev=dict(container=kind)), record=False)
+            _ADMISSIBLE["container/" + kind] = r["status"] == "ok"
+        for kind in ARGTYPES_PROBED:
+            r = run_real(dict(PROBE_CASE, dev=dict(argtypes=kind)), record=False)
+            _ADMISSIBLE["argtypes/" + kind] = r["status"] == "ok"
+    return _ADMISSIBLE
+
+
+def gen_devices(rng):
+    adm = admissible()
+    dev = {}
+    r = rng.random()
+    if r < 0.45:
+        kinds = CONTAINERS_FREE[1:] + [k for k in CONTAINERS_PROBED if adm["container/" + k]]
+        dev["container"] = rng.choice(kinds)
+    if rng.random() < 0.2:
+        dev["copy_lattice"] = rng.choice(COPY_KINDS)
+    if rng.random() < 0.2:
+        dev["copy_parts"] = rng.choice(COPY_KINDS)
+    if rng.random() < 0.2:
+        kinds = [k for k in ARGTYPES_PROBED if adm["argtypes/" + k]]
+        if kinds:
+            dev["argtypes"] = rng.choice(kinds)
+    if rng.random() < 0.15:
+        dev["env"] = True
+    return dev
+
+
 def pick_form(rng, case):
-    """every call is issued in one of the equivalent documented forms (kept in the case: replays are exact)"""
+    """every call is issued in one of the equivalent documented forms and with a random choice of the devices above
+    (kept in the case: replays are exact)"""
     if "form" not in case:
         case["form"] = rng.choice(FORMS)
+    if "dev" not in case:
+        case["dev"] = gen_devices(rng)
     return case
+
+
+def plain(case, **kw):
+    """the same call as a plain keyword call on a new object with a plain list (the reference way of calling)"""
+    return dict(case, form="kw", dev={}, **kw)
+
+
+def dev_of(case):
+    return dict(DEV_DEFAULT, **(case.get("dev") or {}))
+
+
+def dev_tag(case):
+    d = case.get("dev") or {}
+    return [f"{k}={d[k]}" for k in sorted(d) if d[k] not in (None, False) and not (k == "container" and d[k] == "list")]
 
 
 def run_real(case, record=True, lattice=None):
     """Runs the real add_particle_data (on a new object, or on the long-lived `lattice` of a session) in the call form
-    case["form"]. Returns dict(status, grid (flat list), V, kvals, nums, values)."""
+    case["form"] with the devices case["dev"]. Returns dict(status, grid (flat list), V, kvals, nums, values, lattice)."""
+    import contextlib
     import importlib
     L3 = importlib.import_module("sparkx.Lattice3D")
+    dev = dev_of(case)
     lat = lattice if lattice is not None else make_lattice(case["lattice"])
     if lattice is None and case.get("grid") is not None:
         lat.grid_[...] = np.array(case["grid"], dtype=float).reshape(lat.grid_.shape)
+    if dev["copy_lattice"]:
+        lat = copied(lat, dev["copy_lattice"])
     parts = [make_particle(d) for d in case["particles"]]
+    if dev["copy_parts"]:
+        parts = [copied(p, dev["copy_parts"]) for p in parts]
     rec = _Recorder(L3.multivariate_normal)
     if record:
         L3.multivariate_normal = rec
     status = "ok"
-    args, kwargs = call_args(case.get("form"), dict(particle_data=parts, sigma=case["sigma"], quantity=case["quantity"],
-                                                    kernel=case["kernel"], add=case["add"]))
+    vals = typed_args(dict(particle_data=wrap_container(parts, dev["container"]), sigma=case["sigma"],
+                           quantity=case["quantity"], kernel=case["kernel"], add=case["add"]), dev["argtypes"])
+    args, kwargs = call_args(case.get("form"), vals)
+    env = _Env() if dev["env"] else None
     try:
-        with np.errstate(all="ignore"):
+        with (env if env is not None else np.errstate(all="ignore")):
             lat.add_particle_data(*args, **kwargs)
     except (ValueError, TypeError, ZeroDivisionError, OverflowError, FloatingPointError, ArithmeticError, AttributeError,
             KeyError, IndexError) as e:
@@ -195,6 +384,7 @@ def run_real(case, record=True, lattice=None):
         if record:
             L3.multivariate_normal = rec.real
     nums = half_widths(case)
+
     def _num(p, a):
         try:
             return float(getattr(p, a))
@@ -206,6 +396,7 @@ def run_real(case, record=True, lattice=None):
         values = None               # invalid quantity name
     return dict(status=status, grid=[float(v) for v in lat.grid_.flatten()], V=float(lat.cell_volume_),
                 kvals=rec.vals, pdf_calls=rec.calls, nums=nums, lattice=lat, values=values,
+                env_changed=(env.changed if env is not None else []),
                 seen=[[_num(p, a) for a in GEN_ATTRS] for p in parts])
 
 
@@ -577,7 +768,7 @@ def gen_collapsed_case(rng):
 
 def canon(case):
     return json.dumps({k: case[k] for k in ("lattice", "sigma", "kernel", "quantity", "add", "particles")} |
-                      {"grid": case.get("grid"), "form": case.get("form", "kw")}, sort_keys=True)
+                      {"grid": case.get("grid"), "form": case.get("form", "kw"), "dev": dev_tag(case)}, sort_keys=True)
 
 
 # ------------------------------------------------------------------ independent reference for the oracle
@@ -627,7 +818,11 @@ def judge_totals(case, real):
         if not kernel_defined(case):
             return []            # raising is the accepted answer for an undefined kernel
         return [("raises-on-valid-input", f"add_particle_data raised {real['status']} on a valid input "
-                 f"(call form {case.get('form', 'kw')})", dict(status=real["status"]))]
+                 f"(call form {case.get('form', 'kw')}, {', '.join(dev_tag(case)) or 'plain list, no copies'})", dict(status=real["status"]))]
+    for what in real.get("env_changed") or []:
+        out.append(("environment-changed/" + what, f"the call did not leave `{what}` as it found it (cwd / numpy print options / "
+                    f"np.geterr() / global random states / files in the working directory are not the call's to change)",
+                    dict(changed=real["env_changed"])))
     old = case.get("grid")
     base = math.fsum(old) if (case["add"] and old is not None) else 0.0
     dep = (math.fsum(real["grid"]) - base) * V
@@ -682,8 +877,8 @@ def oracle_all(case):
     old = case.get("grid")
     # add=False starts from zero / add=True accumulates: compare node by node with a run on an empty lattice
     # (an add=True call without previous content is judged too: the call form may mis-bind `add`)
-    if old is not None or case["add"] or case.get("form") not in (None, "kw"):
-        fresh = run_real(dict(case, grid=None, add=False, form="kw"), record=False)
+    if old is not None or case["add"] or case.get("form") not in (None, "kw") or dev_tag(case):
+        fresh = run_real(plain(case, grid=None, add=False), record=False)
         out.extend(judge_content(case, real, fresh))
     # order independence: reversed, rotated by one, and (>= 3 particles) first two swapped
     ps = case["particles"]
@@ -712,6 +907,19 @@ def oracle_check(case, key=None):
         if key is None or r[0] == key:
             return r
     return None
+
+
+def blame(case, key, still):
+    """which device of the call makes `key` appear: the first one whose removal makes it disappear names the finding
+    (`still(case')` = is the key still found for case'); none -> the plain key"""
+    d = case.get("dev") or {}
+    for name in ("container", "copy_lattice", "copy_parts", "argtypes", "env"):
+        if d.get(name) not in (None, False, "list"):
+            if not still(dict(case, dev={k: v for k, v in d.items() if k != name})):
+                return f"{name.replace('_', '-')}-{d[name]}/{key}"
+    if case.get("form") not in (None, "kw") and not still(dict(case, form="kw")):
+        return f"call-form-{case['form']}/{key}"      # the plain keyword call is fine: the call form matters
+    return key
 
 
 def closest_nodes(case):
@@ -765,7 +973,7 @@ def gen_step(rng, lat, sigmas, bad=None):
     where = rng.choice(["inside", "inside", "touch", "edge", "any"])
     parts = [gen_particle(rng, lat, sigma, kernel, quantity, where) for _ in range(n)]
     step = dict(sigma=sigma, kernel=kernel, quantity=quantity, add=rng.random() < 0.5, particles=parts,
-                form=rng.choice(FORMS), expect="ok", bad=None)
+                form=rng.choice(FORMS), dev=gen_devices(rng), expect="ok", bad=None)
     if bad is None:
         return step
     step["expect"], step["bad"] = "raise", bad
@@ -826,6 +1034,7 @@ def step_case(sess, step, pre):
     """the call `step` as a single-call case whose previous content is `pre`"""
     c = dict(lattice=sess["lattice"], grid=list(pre), where="any", family="session")
     c.update({k: step[k] for k in ("sigma", "kernel", "quantity", "add", "particles", "form")})
+    c["dev"] = step.get("dev") or {}
     if step.get("bad") in ("massless", "no-momentum"):
         c["nan_kernel"] = step["bad"]
     return c
@@ -841,6 +1050,7 @@ def run_session(sess, record=False):
         pre = [float(v) for v in lat.grid_.flatten()]
         case = step_case(sess, step, pre)
         real = run_real(case, record=record, lattice=lat)
+        lat = real["lattice"]      # the object the call was made on (a copy of the previous one when the step says so)
         out.append(dict(case=case, real=real, pre=pre, step=step))
     return out
 
@@ -850,7 +1060,7 @@ def judge_step(case, real):
     content (+) the smear of the same particles on a new empty lattice (plain keyword call)"""
     out = judge_totals(case, real)
     if real["status"] == "ok" and kernel_defined(case):
-        fresh = run_real(dict(case, grid=None, add=False, form="kw"), record=False)
+        fresh = run_real(plain(case, grid=None, add=False), record=False)
         if fresh["status"] == "ok":
             out.extend(judge_content(case, real, fresh))
     return out
@@ -864,11 +1074,7 @@ def classify(sess, idx, rec, finding):
     if key not in [f[0] for f in judge_step(case, alone)]:
         after_error = any(r["real"]["status"] != "ok" for r in sess["_run"][:idx])
         return ("instance-reuse-after-error-" if after_error else "instance-reuse-") + key
-    if case.get("form") not in (None, "kw"):
-        kw = dict(case, form="kw")
-        if key not in [f[0] for f in judge_step(kw, run_real(kw, record=False))]:
-            return f"call-form-{case['form']}/{key}"
-    return key
+    return blame(case, key, lambda c2: key in [f[0] for f in judge_step(c2, run_real(c2, record=False))])
 
 
 def oracle_session(sess):
@@ -933,7 +1139,7 @@ def shrink_session(sess, key):
 
 def canon_session(sess):
     return json.dumps(dict(lattice=sess["lattice"], grid=sess.get("grid"),
-                           steps=[{k: st.get(k) for k in ("sigma", "kernel", "quantity", "add", "particles", "form", "expect")}
+                           steps=[{k: st.get(k) for k in ("sigma", "kernel", "quantity", "add", "particles", "form", "dev", "expect")}
                                   for st in sess["steps"]]), sort_keys=True)
 
 
@@ -1026,7 +1232,17 @@ def correspond(ctx):
                 "call forms (keywords / positional prefixes of particle_data, sigma, quantity, kernel, add / defaults omitted); "
                 "histories on one long-lived lattice: valid calls interleaved with calls that raise (NaN coordinate, missing "
                 "quantity, massless / momentum-less particle for the covariant kernel at first / middle / last position, unknown "
-                "kernel / quantity name, sigma NaN or 0), every valid call judged against the content observed before it")
+                "kernel / quantity name, sigma NaN or 0), every valid call judged against the content observed before it; devices "
+                "chosen at random per call: particle_data as list / list subclass / tuple / numpy object array / generator / "
+                "iter(list) / map / filter (the latter six only where a probe call of the code under test accepts them - the "
+                "docs say 'a list'; see device-admissible/-rejected in the histogram), lattice and particles replaced by their "
+                "copy.copy / copy.deepcopy / pickle round trip before the call (in histories: the long-lived object is swapped "
+                "for its copy), sigma as numpy double, names as numpy str / str subclass, add as numpy bool, and an altered "
+                "environment (fresh empty cwd, numpy print options, np.seterr(all='warn'), advanced random / np.random states) "
+                "which the call must leave as found and must not depend on; the API takes no file names and no free text, so "
+                "the text devices (CRLF, non-ASCII, trailing blanks) do not apply: 'gaussian ' is an unknown kernel and must raise")
+    for k_, ok_ in admissible().items():
+        ctx.count(("device-admissible/" if ok_ else "device-rejected/") + k_)
     cases = []
     for c in corpus():
         if "session" not in c:
@@ -1057,6 +1273,8 @@ def correspond(ctx):
     for c in cases:
         pick_form(rng, c)
         ctx.count("call-form/" + c["form"])
+        for t in dev_tag(c):
+            ctx.count("device/" + t)
         real = run_real(c)
         line, chunks, how = enc_case(c, real)
         check_contract(ctx, c, real, chunks)
@@ -1077,6 +1295,8 @@ def correspond(ctx):
             c, real, step = rec["case"], rec["real"], rec["step"]
             ctx.count("session-step/" + (step["bad"] or "valid") + ("" if step["bad"] is None else f"@{'first' if step['bad_pos'] == 0 else 'last' if step['bad_pos'] == len(step['particles']) - 1 else 'middle'}"))
             ctx.count("call-form/" + c["form"])
+            for t in dev_tag(c):
+                ctx.count("device/" + t)
             ctx.count("session-step/" + ("raised" if real["status"] != "ok" else "returned"))
             if None in real["nums"] or real["values"] is None and step["bad"] != "bad-quantity":
                 continue
@@ -1172,10 +1392,10 @@ def search(ctx, budget_s):
         ctx.case(("oracle", canon(case)), bool(case["particles"]))
         ctx.count("oracle/" + case.get("family", "random"))
         ctx.count("oracle-call-form/" + case["form"])
+        for t in dev_tag(case):
+            ctx.count("oracle-device/" + t)
         for r in rs:
-            key = r[0]
-            if case["form"] != "kw" and oracle_check(dict(case, form="kw"), r[0]) is None:
-                key = f"call-form-{case['form']}/{r[0]}"      # the plain keyword call is fine: the call form matters
+            key = blame(case, r[0], lambda c2: oracle_check(c2, r[0]) is not None)
             if key in found:
                 continue
             found.add(key)
@@ -1308,7 +1528,8 @@ def replay(ctx, path):
         sess = inp["session"]
         run = run_session(sess)
         for i, rec in enumerate(run):
-            print(f"[C16] step {i}: {rec['step'].get('bad') or 'valid'} call (form {rec['case']['form']}, add={rec['case']['add']}) "
+            print(f"[C16] step {i}: {rec['step'].get('bad') or 'valid'} call (form {rec['case']['form']}, add={rec['case']['add']}, "
+                  f"{', '.join(dev_tag(rec['case'])) or 'plain list'}) "
                   f"-> {rec['real']['status']}, sum(grid)*V = {math.fsum(rec['real']['grid']) * rec['real']['V']!r}")
         rs = oracle_session(sess)
         if rs:
@@ -1326,7 +1547,7 @@ def replay(ctx, path):
     line, _, _ = enc_case(inp, real)
     out = common.run_driver("C16", [line])[0]
     diff = compare(inp, real, out)
-    print(f"[C16] real code (call form {inp.get('form', 'kw')}): status={real['status']} sum(grid)*V={math.fsum(real['grid']) * real['V']!r} quantities={real['values']}")
+    print(f"[C16] real code (call form {inp.get('form', 'kw')}, {', '.join(dev_tag(inp)) or 'plain list, no copies'}): status={real['status']} sum(grid)*V={math.fsum(real['grid']) * real['V']!r} quantities={real['values']}")
     print(f"[C16] model vs code: {'agree' if diff is None else diff}")
     if r:
         print(f"VIOLATION property=C16 replay={path}")
